@@ -225,7 +225,14 @@ def _kernel(ck: Checker, prog: Program, name: str):
     if conds_ok:
         ck.ok("C02.R2", q, f"column {fc_index} = {P} / {Wn} if {Wn} > 0 else 0")
     elif vals_ok:
-        raise AnalysisError(f"{q}: normalisation guard not recognised: {[(str(l_), str(v)) for l_, v in cases]}")
+        # the two values are right; is the quotient taken where the sum of weights can be zero?
+        quot = [lt for lt, v in cases if equal(v, Ps / Ws)]
+        zero_allowed = [lt for lt in quot if len(lt) == 1 and (same_literal_set(lt, [sp.Ge(Ws, 0)]))]
+        if zero_allowed:
+            ck.violation("C02.R2", q, "normalisation guard",
+                         f"the quotient {P}/{Wn} is taken when {zero_allowed[0][0]}: a window without any sample gives 0/0 (NaN) instead of 0", loc=f.loc(o))
+        else:
+            raise AnalysisError(f"{q}: normalisation guard not recognised: {[(str(l_), str(v)) for l_, v in cases]}")
     else:
         ck.violation("C02.R2", q, "normalisation",
                      f"the column stored is not {P}/{Wn} (0 when no sample falls in the window): {[(str(l_), str(v)) for l_, v in cases][:3]}", loc=f.loc(o))
